@@ -4,8 +4,8 @@ package c08
 import (
 	"bytes"
 
-	"github.com/cockroachdb/apd/v3"
 	"fmt"
+	"github.com/cockroachdb/apd/v3"
 	"os"
 	"regexp"
 	"strings"
@@ -205,7 +205,7 @@ func run(c Case) (res evid.Result) {
 	// formatter's handling of comments in unusual positions is a known finding (F62) and is counted.
 	mode := "lenient"
 	switch {
-	case c.Kind == "corpus" || c.Kind == "generated-canonical":
+	case c.Kind == "corpus" || c.Kind == "generated-canonical" || c.Kind == "generated-strings" || c.Kind == "generated-labels" || c.Kind == "generated-lists":
 		mode = "strict"
 	case c.Kind == "generated-layout" && !bytes.Contains(c.Src, []byte("//")):
 		mode = "layout"
@@ -269,6 +269,14 @@ func run(c Case) (res evid.Result) {
 		// attachment: every comment must stay inside the same top-level declaration (the exact owner
 		// node is derived by the parser from layout and legitimately shifts between a brace and the
 		// node it opens; see DESIGN.md C08)
+		if c.Kind == "generated-lists" {
+			// lists with one element per line: every comment group must stay with the same element, in
+			// the same position class (doc or trailing), and groups must neither merge nor split
+			if a, b := dump(f, true), dump(g, true); a != b {
+				res.Fail = fmt.Sprintf("formatting moved, merged or split comments of list elements: %s\ninput:\n%s\noutput:\n%s", firstDiff(a, b), trunc(c.Src), trunc(out))
+				return
+			}
+		}
 		if a, b := commentsByDecl(f), commentsByDecl(g); a != b {
 			res.Fail = fmt.Sprintf("formatting moved a comment to another declaration: %s\ninput:\n%s\noutput:\n%s", firstDiff(a, b), trunc(c.Src), trunc(out))
 			return
@@ -359,10 +367,119 @@ func layout(t *rapid.T, src string) string {
 	return sb.String()
 }
 
+// genStrings: fields whose values are multi-line string and bytes literals with lines that consist
+// of whitespace only (shorter than, equal to and longer than the indentation), trailing blanks,
+// tabs mixed with spaces, and escapes: the formatter re-indents such literals and must not change a byte
+// of their value.
+func genStrings(t *rapid.T) string {
+	var sb strings.Builder
+	for i := 0; i < rapid.IntRange(1, 3).Draw(t, "nstr"); i++ {
+		indent := rapid.SampledFrom([]string{"\t", "\t\t", "    ", "  ", ""}).Draw(t, "indent")
+		q := rapid.SampledFrom([]string{`"""`, `'''`, `#"""`}).Draw(t, "quote")
+		closeQ := q
+		if strings.HasPrefix(q, "#") {
+			closeQ = q[1:] + "#"
+		}
+		nest := rapid.Bool().Draw(t, "nest")
+		if nest {
+			fmt.Fprintf(&sb, "s%d: t: %s\n", i, q)
+		} else {
+			fmt.Fprintf(&sb, "s%d: %s\n", i, q)
+		}
+		for j := 0; j < rapid.IntRange(0, 4).Draw(t, "nlines"); j++ {
+			line := rapid.SampledFrom([]string{"foo", "", " ", "   ", "\t", " \t ", "bar  ", "  baz", "\\n", "a\tb", "\u00a0", "x // not a comment", "}"}).Draw(t, "line")
+			if line == "" && rapid.Bool().Draw(t, "bare") {
+				sb.WriteString("\n") // a completely empty line (no indentation) is allowed inside the literal
+				continue
+			}
+			sb.WriteString(indent + line + "\n")
+		}
+		sb.WriteString(indent + closeQ + "\n")
+	}
+	return sb.String()
+}
+
+// genLabels: quoted labels that are valid identifiers next to references to fields of the same name
+// in an enclosing scope, in either order: -s may only unquote a label when that captures no reference.
+func genLabels(t *rapid.T) string {
+	names := []string{"a", "b", "baz"}
+	var sb strings.Builder
+	for i, n := range names {
+		fmt.Fprintf(&sb, "%s: %d\n", n, i+1)
+	}
+	var body func(depth int) string
+	body = func(depth int) string {
+		var ds []string
+		for i := 0; i < rapid.IntRange(1, 4).Draw(t, "ndecl"); i++ {
+			n := rapid.SampledFrom(names).Draw(t, "name")
+			switch rapid.IntRange(0, 4).Draw(t, "dk") {
+			case 0, 1:
+				ds = append(ds, fmt.Sprintf("r%d: %s", i, n))
+			case 2, 3:
+				ds = append(ds, fmt.Sprintf("%q: %d", n, 10*(i+1)))
+			default:
+				if depth > 0 {
+					ds = append(ds, fmt.Sprintf("n%d: {%s}", i, body(depth-1)))
+				} else {
+					ds = append(ds, fmt.Sprintf("%q: %s", "q"+n, n))
+				}
+			}
+		}
+		return strings.Join(ds, rapid.SampledFrom([]string{", ", "\n"}).Draw(t, "dsep"))
+	}
+	depth := 2
+	if excl {
+		// known finding F84: -s unquotes a label although a struct nested below it refers to an outer
+		// field of that name (b: 2, y: {"b": 10, n: {r: b}} becomes y: {b: 10, n: {r: b}}: r is now 10).
+		// In the gated search quoted labels and references share one struct body.
+		depth = 0
+	}
+	for i := 0; i < rapid.IntRange(1, 3).Draw(t, "nbody"); i++ {
+		fmt.Fprintf(&sb, "y%d: {%s}\n", i, body(depth))
+	}
+	return sb.String()
+}
+
+// genLists: lists with one element per line, written with or without commas, whose elements have doc
+// comments (optionally after a blank line) and trailing comments.
+func genLists(t *rapid.T) string {
+	var sb strings.Builder
+	for i := 0; i < rapid.IntRange(1, 2).Draw(t, "nlist"); i++ {
+		comma := rapid.SampledFrom([]string{"", ","}).Draw(t, "comma")
+		fmt.Fprintf(&sb, "l%d: [\n", i)
+		for j := 0; j < rapid.IntRange(1, 4).Draw(t, "nelem"); j++ {
+			if j > 0 && rapid.IntRange(0, 2).Draw(t, "blank") == 0 {
+				sb.WriteString("\n")
+			}
+			if rapid.IntRange(0, 2).Draw(t, "doc") == 0 {
+				fmt.Fprintf(&sb, "\t// doc %d\n", j)
+			}
+			el := rapid.SampledFrom([]string{"1", `"s"`, "{a: 1}", "[1, 2]", "x"}).Draw(t, "elem")
+			sb.WriteString("\t" + el + comma)
+			if rapid.IntRange(0, 2).Draw(t, "trail") == 0 {
+				fmt.Fprintf(&sb, " // trailing %d", j)
+			}
+			sb.WriteString("\n")
+			if rapid.IntRange(0, 3).Draw(t, "own") == 0 {
+				fmt.Fprintf(&sb, "\t// after %d\n", j)
+			}
+		}
+		sb.WriteString("]\n")
+	}
+	sb.WriteString("x: 1\n")
+	return sb.String()
+}
+
 func gen(t *rapid.T) Case {
 	files := corpus.Files(3000)
 	c := Case{Simplify: rapid.IntRange(0, 3).Draw(t, "simplify") == 0}
-	switch k := rapid.IntRange(0, 9).Draw(t, "kind"); {
+	switch k := rapid.IntRange(0, 12).Draw(t, "kind"); {
+	case k == 10:
+		c.Src, c.Kind = []byte(genStrings(t)), "generated-strings"
+	case k == 11:
+		c.Src, c.Kind, c.Simplify = []byte(genLabels(t)), "generated-labels", true
+	case k == 12:
+		c.Src, c.Kind, c.Simplify = []byte(genLists(t)), "generated-lists", false
 	case k < 3:
 		f := files[rapid.IntRange(0, len(files)-1).Draw(t, "file")]
 		c.Src, c.Kind = corpus.Mutate(t, f.Data, rapid.IntRange(0, 2).Draw(t, "nmut"), files), "corpus-mutation"
